@@ -41,6 +41,11 @@ func overlapCase(i int, seed int64) *caseCfg {
 	case 2:
 		cc.Servers = append(cc.Servers, srvCfg{Outcome: "success", Banned: true})
 	}
+	if i%4 == 3 {
+		// round 2 learns that the HOLDER itself is banned; the holder then answers round 1
+		// with a well formed reply: the primary must not go back to it
+		cc.Variant = "banholder"
+	}
 	return cc
 }
 
@@ -70,6 +75,8 @@ func runOverlap(cc *caseCfg, b run.Batch, r *ev.Result) (abort bool) {
 	}
 	defer doRelease()
 	then := []string{"eof", "reset"}[x.rng.Intn(2)]
+	banHolder := cc.Variant == "banholder"
+	var late []byte // what the holder finally answers in the banholder variant
 	for j := 0; j < 3; j++ {
 		j := j
 		x.rogues[j].setBehave(func(n int) action {
@@ -78,11 +85,23 @@ func runOverlap(cc *caseCfg, b run.Batch, r *ev.Result) (abort bool) {
 			switch {
 			case holder == -1:
 				holder = j
+				if banHolder {
+					rep := refenc.SyncReply{DevKey: x.dev.Pub, Unix: uint64(time.Now().Unix())}
+					for i := range rep.Bitfield {
+						rep.Bitfield[i] = 0xff
+					}
+					late = refenc.BuildSyncReply(rep, x.rogues[j].Key.Priv)
+					then = "reply"
+					return action{Kind: "park", Parked: func() { close(parked) }, Release: release, Then: "reply", Reply: late, CloseAfter: -1, Tag: -1}
+				}
 				return action{Kind: "park", Parked: func() { close(parked) }, Release: release, Then: then}
 			case j == holder || j == bIdx || j == oIdx:
 				return action{Kind: "eof"}
 			case bIdx == -1:
 				bIdx, oIdx = j, 3-holder-j
+				if banHolder {
+					oIdx = holder
+				}
 				list := []refenc.AuthServer{x.entryFor(oIdx, true)}
 				rep := refenc.SyncReply{DevKey: x.dev.Pub, Servers: list, Unix: uint64(time.Now().Unix())}
 				for i := range rep.Bitfield {
@@ -149,7 +168,7 @@ func runOverlap(cc *caseCfg, b run.Batch, r *ev.Result) (abort bool) {
 	oAcc0 := x.rogues[o].acceptCount()
 	bAcc0 := x.rogues[bb].acceptCount()
 	r.Count("overlap_bans_adopted_mid_round", 1)
-	if oAcc0 != 0 {
+	if oAcc0 != 0 && !banHolder {
 		x.inconc("O was dialled before it was banned (%d): roles are inconsistent", oAcc0)
 		doRelease()
 		<-r1
@@ -219,6 +238,12 @@ func runOverlap(cc *caseCfg, b run.Batch, r *ev.Result) (abort bool) {
 	if d := x.rogues[bb].acceptCount() - bAcc0; d > 0 {
 		r.Count("overlap_attempts_after_ban", int64(d)) // round 1 really made attempts after the ban was known
 	}
+	if banHolder {
+		r.Count("overlap_banned_holder_answered_late", 1)
+		if ok1 {
+			r.Count("overlap_late_reply_of_banned_holder_accepted", 1)
+		}
+	}
 	r.Nontrivial(fmt.Sprintf("overlap|%v|%s|%d%d%d", cc.Servers, then, a, bb, o))
 	if d := x.rogues[o].acceptCount() - oAcc0; d > 0 {
 		r.Violationf("dialed-banned-server", x.replay(map[string]interface{}{"label": "overlap", "holder": a, "B": bb, "O": o}),
@@ -236,8 +261,11 @@ func runOverlap(cc *caseCfg, b run.Batch, r *ev.Result) (abort bool) {
 	if client.VerifTicks() < x.T0+28 {
 		r.Count("primary_checks", 1)
 		if [32]byte(st.PrimaryServer) == x.rogues[o].Key.Pub {
-			r.Violationf("primary-server-banned", x.replay(map[string]interface{}{"label": "overlap", "holder": a, "B": bb, "O": o}),
-				"overlap: server #%d (%x) was never selected before round 2 adopted its ban, yet it is the primary server after round 1 went on", o, x.rogues[o].Key.Pub[:6])
+			what := fmt.Sprintf("server #%d (%x) was never selected before round 2 adopted its ban, yet it is the primary server after round 1 went on", o, x.rogues[o].Key.Pub[:6])
+			if banHolder {
+				what = fmt.Sprintf("round 2 adopted a ban of server #%d (%x) and moved the primary away while round 1 was held there; when that server finally answered round 1 it became the primary server again although the client knows it is banned", o, x.rogues[o].Key.Pub[:6])
+			}
+			r.Violationf("primary-server-banned", x.replay(map[string]interface{}{"label": "overlap", "variant": cc.Variant, "holder": a, "B": bb, "O": o}), "overlap: %s", what)
 		}
 	}
 	_, hasPrimary := st.Servers[st.PrimaryServer]
